@@ -32,10 +32,12 @@ type Msg struct {
 	ID      any    // nil for notifications; int or string
 	Body    []byte // JSON text sent
 	URI     string
-	Version int
+	Version int    // the client's version number: restarts after a reopen, may repeat
 	Docs    []*Doc // contents carried by open/change (one per contentChanges entry)
-	Line    int64
-	Char    int64
+	// DiagOrdinal says this is the n-th open/change with this (uri, version) in the history
+	DiagOrdinal int
+	Line        int64
+	Char        int64
 	// definition: the model at request time
 	Open  int
 	Cands []*Doc // possible latest contents, the one required by the protocol first
@@ -64,10 +66,11 @@ type lineage struct {
 }
 
 type docState struct {
-	uri   string
-	open  int
-	cands []*Doc
-	lin   *lineage
+	uri     string
+	open    int
+	cands   []*Doc
+	lin     *lineage
+	version int // last version number used by the client for this document
 }
 
 // GenOpts parameterise the history generator.
@@ -79,6 +82,9 @@ type GenOpts struct {
 	// Hostile enables the server-killing variants (at most one per history, late).
 	KillEmptyChanges bool
 	KillNonFileURI   bool
+	// BigPairs is the number of large documents (64-128 KiB, also sizes right at
+	// 65536) that are opened/changed and immediately followed by a tiny change.
+	BigPairs int
 }
 
 type gen struct {
@@ -89,6 +95,42 @@ type gen struct {
 	stamp  int
 	nextID int
 	defIDs []*Msg // definition requests sent so far
+	keyN   map[string]int
+}
+
+// versionFor picks the client's version number for an open or change. Clients
+// number the versions of an open/close session: usually 1 at didOpen and +1 per
+// change; some continue across a reopen, some send a change without bumping.
+func (g *gen) versionFor(d *docState, open bool) int {
+	x := g.r.Intn(100)
+	v := d.version + 1
+	switch {
+	case open && x < 70:
+		v = 1
+	case open && x < 80:
+		v = d.version // reopened with the number it had when it was closed
+	case open && x < 90:
+		v = 1 + g.r.Intn(4)
+	case !open && x < 8:
+		v = d.version // change without a new version number
+	case !open && x < 12:
+		v = d.version + 2 + g.r.Intn(3)
+	}
+	if v < 1 {
+		v = 1
+	}
+	d.version = v
+	return v
+}
+
+// ordinal numbers the messages that share a (uri, version).
+func (g *gen) ordinal(m *Msg) {
+	if g.keyN == nil {
+		g.keyN = map[string]int{}
+	}
+	k := fmt.Sprintf("%s#%d", m.URI, m.Version)
+	g.keyN[k]++
+	m.DiagOrdinal = g.keyN[k]
 }
 
 func escapeNonASCII(b []byte) []byte {
@@ -264,13 +306,21 @@ func Generate(r *rand.Rand, o GenOpts) *History {
 	if o.KillEmptyChanges || o.KillNonFileURI {
 		killAt = o.NOps*3/4 + r.Intn(o.NOps/4+1)
 	}
+	bigAt := map[int]bool{}
+	for i := 0; i < o.BigPairs; i++ {
+		bigAt[o.NOps*(i+1)/(o.BigPairs+2)] = true
+	}
 	for op := 0; op < o.NOps; op++ {
+		if bigAt[op] && op != killAt {
+			g.bigThenSmall()
+			continue
+		}
 		if op == killAt {
 			if o.KillNonFileURI {
 				g.stamp++
 				d := NewSynSpec(r, !o.ASCII).Render(g.stamp)
-				g.add(&Msg{Kind: "open", URI: "untitled:Untitled-1", Version: g.stamp, Docs: []*Doc{d}, Hostile: "non-file-uri", Optional: true},
-					"textDocument/didOpen", map[string]any{"textDocument": textDocItem("untitled:Untitled-1", g.stamp, d.Text)})
+				g.add(&Msg{Kind: "open", URI: "untitled:Untitled-1", Version: 2000000 + g.stamp, Docs: []*Doc{d}, Hostile: "non-file-uri", Optional: true},
+					"textDocument/didOpen", map[string]any{"textDocument": textDocItem("untitled:Untitled-1", 2000000+g.stamp, d.Text)})
 				continue
 			}
 			var od *docState
@@ -281,8 +331,8 @@ func Generate(r *rand.Rand, o GenOpts) *History {
 			}
 			if od != nil {
 				g.stamp++
-				g.add(&Msg{Kind: "change", URI: od.uri, Version: g.stamp, Hostile: "empty-changes", Optional: true},
-					"textDocument/didChange", map[string]any{"textDocument": map[string]any{"uri": od.uri, "version": g.stamp}, "contentChanges": []any{}})
+				g.add(&Msg{Kind: "change", URI: od.uri, Version: 2000000 + g.stamp, Hostile: "empty-changes", Optional: true},
+					"textDocument/didChange", map[string]any{"textDocument": map[string]any{"uri": od.uri, "version": 2000000 + g.stamp}, "contentChanges": []any{}})
 				continue
 			}
 		}
@@ -344,27 +394,47 @@ func (g *gen) step() {
 }
 
 func (g *gen) open(d *docState, hostile string) {
-	doc := g.nextDoc(d)
+	g.openWith(d, g.nextDoc(d), hostile)
+}
+
+func (g *gen) openWith(d *docState, doc *Doc, hostile string) {
 	d.open, d.cands = Open, []*Doc{doc}
-	g.add(&Msg{Kind: "open", URI: d.uri, Version: doc.Stamp, Docs: []*Doc{doc}, Hostile: hostile},
-		"textDocument/didOpen", map[string]any{"textDocument": textDocItem(d.uri, doc.Stamp, doc.Text)})
+	m := &Msg{Kind: "open", URI: d.uri, Version: g.versionFor(d, true), Docs: []*Doc{doc}, Hostile: hostile}
+	g.ordinal(m)
+	g.add(m, "textDocument/didOpen", map[string]any{"textDocument": textDocItem(d.uri, m.Version, doc.Text)})
 }
 
 func (g *gen) change(d *docState) {
-	m := &Msg{Kind: "change", URI: d.uri}
 	n := 1
 	if g.r.Intn(25) == 0 {
 		n = 2 + g.r.Intn(2)
+	}
+	var docs []*Doc
+	for i := 0; i < n; i++ {
+		docs = append(docs, g.nextDoc(d))
+	}
+	g.changeWith(d, docs)
+}
+
+func (g *gen) changeWith(d *docState, docs []*Doc) {
+	m := &Msg{Kind: "change", URI: d.uri, Docs: docs}
+	n := len(docs)
+	if n > 1 {
 		m.Hostile = "multi-changes"
 	}
 	var changes []any
-	for i := 0; i < n; i++ {
-		doc := g.nextDoc(d)
-		m.Docs = append(m.Docs, doc)
+	for _, doc := range docs {
 		changes = append(changes, map[string]any{"text": doc.Text})
 	}
 	last := m.Docs[n-1]
-	m.Version = last.Stamp
+	if d.open != Open {
+		// its publication is optional: give it a version number nothing else uses
+		d.version = 1000000 + last.Stamp
+		m.Version = d.version
+	} else {
+		m.Version = g.versionFor(d, false)
+	}
+	g.ordinal(m)
 	if d.open != Open {
 		// the protocol does not define a change of a document that is not open
 		d.open = MaybeOpen
@@ -383,12 +453,38 @@ func (g *gen) change(d *docState) {
 		"textDocument": map[string]any{"uri": d.uri, "version": m.Version}, "contentChanges": changes})
 }
 
+// bigThenSmall sends a large document and right after it a much smaller version
+// of the same document, then asks for a definition in the small one.
+func (g *gen) bigThenSmall() {
+	d := g.docs[g.r.Intn(len(g.docs))]
+	g.stamp++
+	size := []int{65536, 65535, 65537, 0, 131072, 70000}[g.r.Intn(6)]
+	rules := 1200 + g.r.Intn(400) // below 64 KiB before padding
+	if size == 0 {
+		rules = 3000 // about 84 KiB without padding
+	}
+	big := BigDoc(g.stamp, rules, size, !g.o.ASCII)
+	if d.open == Open && g.r.Intn(2) == 0 {
+		g.changeWith(d, []*Doc{big})
+	} else {
+		g.openWith(d, big, "")
+	}
+	g.h.Msgs[len(g.h.Msgs)-1].Hostile = "big-document"
+	g.stamp++
+	g.changeWith(d, []*Doc{BigDoc(g.stamp, 2, 0, false)})
+	d.lin = nil
+	g.definition(d)
+}
+
 func (g *gen) close(d *docState) {
 	d.open, d.cands = Closed, nil
 	g.add(&Msg{Kind: "close", URI: d.uri}, "textDocument/didClose", map[string]any{"textDocument": map[string]any{"uri": d.uri}})
 }
 
-func (g *gen) definition(d *docState) { g.definitionOn(d.uri, d.open, d.cands) }
+func (g *gen) definition(d *docState) {
+	g.definitionOn(d.uri, d.open, d.cands)
+	g.h.Msgs[len(g.h.Msgs)-1].Version = d.version
+}
 
 func (g *gen) definitionOn(uri string, open int, cands []*Doc) {
 	m := &Msg{Kind: "definition", ID: g.newID(), URI: uri, Open: open, Cands: cands}
